@@ -28,7 +28,9 @@ pub fn gen(seed: u64, thorough: bool) -> Plan {
         p.seed = seed;
         let commits = p.steps.iter().filter(|s| matches!(s, Step::Commit)).count();
         let adds = p.steps.iter().filter(|s| matches!(s, Step::Add { .. })).count();
-        if commits < 1 || commits > 6 || adds > if thorough { 300 } else { 100 } {
+        // (a few runs are shaped like the memory-hint runs: more than 200 items and small hints)
+        let big = adds > 200 && p.steps.iter().any(|s| matches!(s, Step::Build { mem: Some(_), .. }));
+        if commits < 1 || commits > 6 || (adds > if thorough { 300 } else { 100 } && !(big && adds <= 700)) {
             continue;
         }
         // restarts close the environment under the readers' feet: not part of this scenario
@@ -44,11 +46,17 @@ pub fn gen(seed: u64, thorough: bool) -> Plan {
             if end {
                 if r.chance(1, 4) {
                     if let Some(bi) = block.iter().rposition(|s| matches!(s, Step::Build { .. })) {
+                        // (in the larger runs, and in a third of the others, the application then does the
+                        // same transaction again, without the cancellation)
+                        let again = if big || r.chance(1, 3) { Some(block.clone()) } else { None };
                         if let Step::Build { fault, .. } = &mut block[bi] {
-                            *fault = crate::plan::Fault::CancelAt { n: r.below(150) };
+                            *fault = crate::plan::Fault::CancelAt { n: r.below(if big { 6000 } else { 150 }) };
                         }
                         block.truncate(bi + 1);
                         block.push(Step::Abort);
+                        if let Some(mut a) = again {
+                            block.append(&mut a);
+                        }
                     }
                 }
                 out.append(&mut block);
@@ -340,8 +348,32 @@ pub fn run(plan: &Plan, workdir: &Path) -> Outcome {
     // smallest key first, no readers, canonical page placement), with and without their aborted
     // transactions; a build being a function of (database, options, seed), every commit of the two
     // executions must write the same bytes
-    if out.violation.is_none() && out.unevaluable.is_none() && out.observations.is_empty() && plan.seed % 4 == 0 {
+    if out.violation.is_none() && out.unevaluable.is_none() && out.observations.is_empty() && (plan.seed % 4 == 0 || plan.steps.len() > 250) {
         if let Some(p2) = without_aborted_txns(plan, plan.steps.len()) {
+            // the larger runs (memory hints, cancellations deep inside a build) are compared across two fresh
+            // processes, by the hashes of their commits: a trace kept in the memory of the process would
+            // otherwise be shared by the two executions
+            if plan.steps.len() > 250 || plan.seed % 64 == 0 {
+                let ha = crate::driver::commit_hashes_subprocess(plan, "a");
+                let hb = crate::driver::commit_hashes_subprocess(&p2, "b");
+                if let (Some(ha), Some(hb)) = (ha, hb) {
+                    out.stats.probe("abort_differential_in_fresh_processes");
+                    if ha != hb {
+                        let i = ha.iter().zip(&hb).position(|(x, y)| x != y).unwrap_or(ha.len().min(hb.len()));
+                        out.violation = Some(Violation {
+                            properties: vec!["C08".into()],
+                            kind: "aborted_txn_changed_later_bytes".into(),
+                            step: 0,
+                            detail: format!(
+                                "the same history executed without scheduling choices in two fresh processes, with and without its aborted transactions: {} and {} commits, the first that differs is #{i}",
+                                ha.len(),
+                                hb.len()
+                            ),
+                        });
+                    }
+                }
+                return out;
+            }
             let a = committed_dumps_without_choices(plan, workdir);
             let b = committed_dumps_without_choices(&p2, workdir);
             if let (Some(a), Some(b)) = (a, b) {
@@ -376,7 +408,7 @@ pub fn run(plan: &Plan, workdir: &Path) -> Outcome {
 
 /// The dumps written by the commits of `plan` when it runs alone (no readers) under the choice-free
 /// schedule with a logical pool of one and canonical page placement; None if that execution is not clean.
-fn committed_dumps_without_choices(plan: &Plan, workdir: &Path) -> Option<Vec<Dump>> {
+pub fn committed_dumps_without_choices(plan: &Plan, workdir: &Path) -> Option<Vec<Dump>> {
     let mut p = plan.clone();
     p.cfg.sched = "fifo".into();
     p.cfg.pool = 1;
